@@ -501,6 +501,48 @@ def case_e2e(p):
     return out
 
 
+def case_e2e_early_request(p):
+    """p: k, api.  While the connection is being made (k loop iterations into it: TCP connect, the two pair-verify round trips, the switch to
+    the secure protocol, the re-subscription) a caller issues a request straight on the connection object.  It may be refused, it may wait;
+    what it may not do is reach an accessory that has an established secure session as anything but authenticated blocks."""
+    from vt.env.iprig import IpRig, std_handler
+
+    rig = IpRig(seed=p.get("seed", 0))
+    out = []
+    try:
+        rig.acc.handler = std_handler()
+        t0 = rig.loop.create_task(rig.pairing._ensure_connected())
+        for _ in range(p["k"]):
+            if rig.loop.has_ready():
+                rig.loop.run_batch()
+        c = rig.conn
+        coro = c.get("/accessories") if p["api"] == "get" else c.put("/characteristics", b'{"characteristics":[{"aid":1,"iid":9,"value":true}]}')
+        t1 = rig.loop.create_task(coro)
+        for _ in range(40):
+            rig.loop.run_until_idle()
+            if (t0.done() and t1.done()) or not rig.loop.fire_next_timer():
+                break
+        rig.loop.run_until_idle()
+        det = {"k": p["k"], "api": p["api"], "early_request": ("pending" if not t1.done() else ("cancelled" if t1.cancelled() else (type(t1.exception()).__name__ if t1.exception() else "answered")))}
+        for conn in rig.net.conns:
+            sess = conn.session
+            if sess.errors:
+                out.append(("e2e:accessory-could-not-decode-what-arrived-on-an-established-session", dict(det, errors=[str(e)[:80] for e in sess.errors[:2]])))
+            # (a request written BEFORE the session was established travels in the clear on the not-yet-secure connection: that is how the
+            # connection object is used for pair-setup and not this property's subject)
+        if not t0.done() or t0.cancelled() or t0.exception() is not None:
+            out.append(("e2e:connection-not-established-because-of-an-early-request", dict(det, connector="pending" if not t0.done() else repr(t0.exception() if not t0.cancelled() else "cancelled")[:100])))
+        for t in (t0, t1):
+            if not t.done():
+                t.cancel()
+        rig.loop.run_until_idle()
+    except Exception as e:  # noqa: BLE001
+        out.append((f"e2e:raises:{type(e).__name__}", {"k": p["k"], "err": str(e)[:200]}))
+    finally:
+        rig.close()
+    return out
+
+
 def case_e2e_corrupt(p):
     """Real IpPairing over the simulated network, no request in flight: a corrupted (event) frame must end the session -
     the controller closes the connection and the pairing no longer reports connected; nothing of the frame reaches listeners."""
@@ -541,7 +583,7 @@ def case_e2e_corrupt(p):
     return out
 
 
-CASES = {"outbound_cancel": case_outbound_cancel, "bigreads": case_bigreads, "send_between": case_send_between, "framesplits": case_framesplits, "e2e_corrupt": case_e2e_corrupt, "outbound": case_outbound, "graph": case_graph, "cuts": case_cuts, "corrupt": case_corrupt, "e2e": case_e2e}
+CASES = {"e2e_early_request": case_e2e_early_request, "outbound_cancel": case_outbound_cancel, "bigreads": case_bigreads, "send_between": case_send_between, "framesplits": case_framesplits, "e2e_corrupt": case_e2e_corrupt, "outbound": case_outbound, "graph": case_graph, "cuts": case_cuts, "corrupt": case_corrupt, "e2e": case_e2e}
 
 
 def _work(item, seed, tier):
@@ -569,6 +611,9 @@ def run(ctx):
     for i in range(0, len(lens), 50):
         work.append(("outbound", {"lengths": lens[i : i + 50]}))
     work.append(("outbound", {"lengths": [1023, 1024, 1025, 2047, 2048, 2049, 3072, 3073, 1, 0, 1024, 1024 * 8 + 1, 65536, 65537]}))
+    for k in range(0, 40):
+        for api in ("get", "put"):
+            work.append(("e2e_early_request", {"k": k, "api": api}))
     # a request abandoned by its caller after k loop iterations (small, several blocks, beyond 64 KiB and 128 KiB), then another one
     for n1 in (1, 1024, 5000, 65536, 65537, 70000, 140000, 200000) if quick else (0, 1, 1023, 1024, 1025, 5000, 32768, 65535, 65536, 65537, 70000, 131072, 131073, 140000, 200000, 300000, 600000):
         for k in range(0, 6 if quick else 12):
